@@ -272,6 +272,26 @@ def r14_3(ctx, fx):
                 rs = guards.rootstrs(vfn, f_["key"])
                 keys_ok = any("Key" in x and "::from" in x for x in rs) and any(x.startswith("param:_2") for x in rs)
         ctx.ob("R14.3", "VacantSlot::insert/key=Key::from(new.peer)", keys_ok, site=vfn.site(vfn.entry), cfg=fx.cfg)
+        # .. in *both* arms: what is written over a replaced element carries the new peer's key too (a slot reused field by field
+        # without its key is found under the evicted peer's key and sorted by it)
+        keyed = set()
+        for n, s_ in vfn.aggregates(r"types::KademliaPeer$"):
+            f_ = dict(zip(s_["rv"].get("fields", []), s_["rv"]["ops"]))
+            if "key" in f_ and any("Key" in x and "::from" in x for x in guards.rootstrs(vfn, f_["key"])):
+                keyed |= vfn.copies_of(s_["lhs"][0]) | {s_["lhs"][0]}
+        for i_, c in enumerate(vfn.calls(r"IndexMut(<.*>)?>?::index_mut$")):
+            refs = vfn.copies_of(c.dest[0]) | {c.dest[0]}
+            whole, fields = [], set()
+            for n, s_ in vfn.assigns():
+                if s_["lhs"][0] in refs and len(s_["lhs"]) >= 2 and s_["lhs"][1] == "*":
+                    if len(s_["lhs"]) == 2:
+                        whole.append(s_)
+                    else:
+                        fields.add(s_["lhs"][2].lstrip("."))
+            ok_w = bool(whole) and all(s_["rv"]["r"] == "use" and (set(slice_locals(vfn, s_["rv"]["o"])) & keyed) for s_ in whole)
+            ok_f = "key" in fields
+            ctx.ob("R14.3", "VacantSlot::insert/replace-arm#%d-stores-the-new-peer's-key" % i_, ok_w or (not whole and ok_f), site=vfn.site(c.node), cfg=fx.cfg,
+                   detail="whole-element writes from the re-keyed value: %s; fields written one by one: %s" % (ok_w, sorted(fields)))
         # the replace arm overwrites exactly the designated element (IndexMut with the stored index), the append arm pushes
         im = [c for c in vfn.calls(r"IndexMut(<.*>)?>?::index_mut$")]
         sws = [sw for sw in vfn.discr_switches() if sw[2].endswith("option::Option") and vfn.origin({"c": list(sw[1])}).endswith(".index")]
